@@ -503,6 +503,9 @@ def run_property(pid: str, props_file: str, streams: list[Stream], tier: str, se
         "wall_s": round(wall, 2),
         "violations": len(verdict_violations),
     }
+    if discharged == 0:  # keep the file schema-valid on a run whose proofs did not build
+        del ev["coverage"]["discharged"]
+        ev["coverage"]["proofs_built"] = False
     (ROOT / "evidence").mkdir(exist_ok=True)
     (ROOT / "evidence" / f"{pid}.json").write_text(json.dumps(ev, indent=1, default=str))
 
